@@ -1431,6 +1431,14 @@ class C16(Prop):
             e.append("E RR " + G.canon(G.rnd_rr(rng, names, rng.choice(["SVCB", "HTTPS"]))))
         for keys_ in ([4, 1], [6, 5, 4, 3, 1], [1, 1], [65535, 0], []):
             e.append("E RR " + G.canon(('RR', 64, ('N', [b"a"]), 1, 1, ('SVCB', 1, ('N', []), [('MAND', *keys_), ('PORT', 1)]))))
+        # every order (and duplication) of the listed mandatory keys: all sequences of <= 4 (thorough: <= 5) keys
+        alpha, maxlen = ((1, 3, 4, 6), 4) if tier != "thorough" else ((1, 2, 3, 4, 5, 6), 5)
+        for n in range(2, maxlen + 1):
+            for keys_ in itertools.product(alpha, repeat=n):
+                byk = {1: ('ALPN', b"h2"), 2: ('NODEF',), 3: ('PORT', 443), 4: ('V4', bytes([192, 0, 2, 1])), 5: ('ECH', b"x"),
+                       6: ('V6', bytes(15) + b"\x01")}
+                ps = [('MAND', *keys_)] + [byk[k] for k in sorted(set(keys_))]
+                e.append("E RR " + G.canon(('RR', 64 + (n & 1), ('N', [b"a"]), 1, 1, ('SVCB', 1, ('N', []), ps))))
         for n in (0, 1, 255, 300):
             e.append("E RR " + G.canon(('RR', 65, ('N', [b"a"]), 1, 1, ('SVCB', 2, ('N', [b"t"]), [('ECH', bytes(n)), ('PRIV', 7, bytes(n)), ('PRIV', 65534, b"")]))))
         e.append("E RR " + G.canon(('RR', 64, ('N', [b"a"]), 1, 1, ('SVCB', 0, ('N', [b"alias"]), []))))
@@ -1567,11 +1575,10 @@ class C17(Prop):
         if r[0] != "OK":
             return None
         for kind, fam, p, cnt, raw in r[2].addr_counts:
-            size = 4 if fam == 1 else 16
-            if kind == "ECS" and "RFC 7871" in failure and cnt == min(max(p) // 8 + 1, size):
+            # KF2 (narrowed by the repair of the address writer): an ECS value whose address has a non-zero octet
+            # beyond ceil(source/8) -- possible only with scope > source -- is written up to that octet
+            if kind == "ECS" and "RFC 7871" in failure and p[1] > p[0] and cnt > (p[0] + 7) // 8 and raw[cnt - 1] != 0:
                 return "KF2"
-            if kind == "APL" and "trailing zero" in failure and cnt == min(p // 8 + 1, size):
-                return "KF3"
         return None
 
     def rule(self):
